@@ -8,6 +8,7 @@ import (
 	"go/constant"
 	"go/token"
 	"go/types"
+	"os"
 	"sort"
 	"strings"
 
@@ -66,7 +67,7 @@ func (s *State) clone() *State {
 }
 
 type Obligation struct {
-	Known bool // listed in known_findings.txt for the property being checked
+	Known    bool            // listed in known_findings.txt for the property being checked
 	SkipTags map[string]bool // tagged assumptions this obligation leaves out (clause `uses [...]`)
 	Name     string
 	Kind     string // ensures requires inv.entry inv.preserve safe.* frame lemma cover decreases
@@ -80,11 +81,11 @@ type Obligation struct {
 	Contract *FuncContract
 	IsCover  bool // expected sat (reachability)
 	// filled by the solver driver
-	Result  string
-	Solver  string
-	Seconds float64
-	Model   string
-	Output  string
+	Result    string
+	Solver    string
+	Seconds   float64
+	Model     string
+	Output    string
 	File      string
 	PerSolver []string
 	Relaxed   bool
@@ -93,66 +94,66 @@ type Obligation struct {
 }
 
 type Enc struct {
-	prog    *Program
-	ctx     *Ctx
-	obls    []*Obligation
-	heapSrt map[string]string // heap name -> sort
-	heapOrd []string
-	unit    string // name of the unit (function key)
-	errs    []string
-	safety  bool // generate safety obligations
-	frameOn bool // generate frame obligations for the top-level function
-	topFC   *FuncContract
-	topFrame *Frame
-	pureDecl map[string]bool
+	prog           *Program
+	ctx            *Ctx
+	obls           []*Obligation
+	heapSrt        map[string]string // heap name -> sort
+	heapOrd        []string
+	unit           string // name of the unit (function key)
+	errs           []string
+	safety         bool // generate safety obligations
+	frameOn        bool // generate frame obligations for the top-level function
+	topFC          *FuncContract
+	topFrame       *Frame
+	pureDecl       map[string]bool
 	inlineDepthMax int
-	usedTrusted map[string]string // key -> reason, for evidence
-	usedPurePkg map[string]bool
-	oblSeq  map[string]int
-	noInline map[string]bool
-	sweep   bool // zero-annotation sweep mode: un-contracted callees are havocked, not inlined
-	lockset bool
-	extraInline   map[string]bool
-	usedContracts map[string]bool
-	inlined       map[string]bool
-	inlineSeq     int
-	unknownCalls  map[string]int
-	usedGlobals   []string
-	instDone      map[string]bool
-	flat          *flatMap
-	flatDone      bool
-	memoCount     map[string]int // call sites per memoising function (see memoSites)
-	memoUsed      bool // a memoising (pure, fresh-result) call has been encoded
-	lockAcq       map[string]int
-	inPureInst    map[string]bool
-	renamed       map[string]bool // contract names bound through the recorded bindings (reported in the evidence)
+	usedTrusted    map[string]string // key -> reason, for evidence
+	usedPurePkg    map[string]bool
+	oblSeq         map[string]int
+	noInline       map[string]bool
+	sweep          bool // zero-annotation sweep mode: un-contracted callees are havocked, not inlined
+	lockset        bool
+	extraInline    map[string]bool
+	usedContracts  map[string]bool
+	inlined        map[string]bool
+	inlineSeq      int
+	unknownCalls   map[string]int
+	usedGlobals    []string
+	instDone       map[string]bool
+	flat           *flatMap
+	flatDone       bool
+	memoCount      map[string]int // call sites per memoising function (see memoSites)
+	memoUsed       bool           // a memoising (pure, fresh-result) call has been encoded
+	lockAcq        map[string]int
+	inPureInst     map[string]bool
+	renamed        map[string]bool // contract names bound through the recorded bindings (reported in the evidence)
 }
 
 type Frame struct {
-	enc      *Enc
-	fn       *ssa.Function
-	vals     map[ssa.Value]*Val
-	prefix   string
-	depth    int
-	reach    map[*ssa.BasicBlock]string
-	exit     map[*ssa.BasicBlock]*State
-	entrySt  *State // state at function entry (for old())
-	rets     []retSite
-	loops    []*loopInfo
-	loopOf   map[*ssa.BasicBlock]*loopInfo // header -> loop
-	contract *FuncContract
-	parent   *Frame
-	params   map[string]*Val
-	curBlock *ssa.BasicBlock
-	curInstr ssa.Instruction
-	rangeSt  map[*ssa.Range]*rangeState
-	escaped  map[ssa.Value]ssa.Instruction // first escaping use
-	held     map[*ssa.BasicBlock]map[string]string // lockset per block (C20)
-	defers   []*ssa.Defer
-	lets     map[string]*Val // pre-state lets of the contract (usable in loop invariants)
-	curSt    *State
+	enc         *Enc
+	fn          *ssa.Function
+	vals        map[ssa.Value]*Val
+	prefix      string
+	depth       int
+	reach       map[*ssa.BasicBlock]string
+	exit        map[*ssa.BasicBlock]*State
+	entrySt     *State // state at function entry (for old())
+	rets        []retSite
+	loops       []*loopInfo
+	loopOf      map[*ssa.BasicBlock]*loopInfo // header -> loop
+	contract    *FuncContract
+	parent      *Frame
+	params      map[string]*Val
+	curBlock    *ssa.BasicBlock
+	curInstr    ssa.Instruction
+	rangeSt     map[*ssa.Range]*rangeState
+	escaped     map[ssa.Value]ssa.Instruction         // first escaping use
+	held        map[*ssa.BasicBlock]map[string]string // lockset per block (C20)
+	defers      []*ssa.Defer
+	lets        map[string]*Val // pre-state lets of the contract (usable in loop invariants)
+	curSt       *State
 	guardedVals map[ssa.Value][2]string
-	callSite ssa.Instruction // inlined frame: the call it stands for
+	callSite    ssa.Instruction // inlined frame: the call it stands for
 }
 
 type retSite struct {
@@ -163,18 +164,18 @@ type retSite struct {
 }
 
 type loopInfo struct {
-	ordinal  int
-	header   *ssa.BasicBlock
-	body     map[*ssa.BasicBlock]bool
-	backs    []*ssa.BasicBlock
-	phiVal   map[*ssa.Phi]*Val
-	headSt   *State
-	rangeIdx *ssa.Phi
-	idxPhi   *ssa.Phi  // for i := 0; i < bound; i++ : the counter (when the loop is not a range loop)
-	idxLenOf ssa.Value // bound is len(idxLenOf), a value defined outside the loop
-	idxBound ssa.Value // or the bound itself, defined outside the loop
-	rangeLen ssa.Value
-	mapRange *ssa.Range
+	ordinal   int
+	header    *ssa.BasicBlock
+	body      map[*ssa.BasicBlock]bool
+	backs     []*ssa.BasicBlock
+	phiVal    map[*ssa.Phi]*Val
+	headSt    *State
+	rangeIdx  *ssa.Phi
+	idxPhi    *ssa.Phi  // for i := 0; i < bound; i++ : the counter (when the loop is not a range loop)
+	idxLenOf  ssa.Value // bound is len(idxLenOf), a value defined outside the loop
+	idxBound  ssa.Value // or the bound itself, defined outside the loop
+	rangeLen  ssa.Value
+	mapRange  *ssa.Range
 	autoFresh []*ssa.Phi
 }
 
@@ -832,6 +833,12 @@ func (f *Frame) exitStateForInv() *State { return f.curSt }
 
 func (f *Frame) encodeBlock(b *ssa.BasicBlock, st *State) {
 	f.curSt = st
+	if os.Getenv("GOVC_AUDIT") != "" && f.reach[b] != "false" && len(b.Instrs) > 0 {
+		// audit (not part of any check): every block should be reachable under the assumptions
+		f.curInstr = b.Instrs[0]
+		f.enc.addObl(&Obligation{Name: fmt.Sprintf("%s#cover.soft[block %d reachable]", f.prefix, b.Index), Kind: "cover.soft", Func: f.prefix,
+			Guard: f.reach[b], Goal: "false", IsCover: true, Text: "block reachable", Pos: f.posOfBlock(b)})
+	}
 	for _, ins := range b.Instrs {
 		f.curInstr = ins
 		if f.reach[b] == "false" {
